@@ -17,7 +17,7 @@ void h_sign32(void) {
     __CPROVER_assert(g_si_n == 1 && ret == g_si_ret, "C02 sign32: exactly one sign_internal call whose result is returned");
     __CPROVER_assert(g_si_ctx == &ctx && g_si_sig == (use_sig ? sig : NULL) && g_si_kp == (use_kp ? &kp : NULL), "C02 sign32: context, output buffer and keypair are forwarded");
     __CPROVER_assert(g_si_msg == (use_msg ? msg32 : NULL) && g_si_msglen == 32, "C02 sign32: message is msg32 with length exactly 32");
-    __CPROVER_assert(g_si_fp == secp256k1_nonce_function_bip340 && g_si_ndata == (use_aux ? (void *)aux : NULL), "C02 sign32: BIP-340 nonce function with aux_rand32 (or NULL) as its data");
+    __CPROVER_assert((g_si_fp == secp256k1_nonce_function_bip340 || g_si_fp == NULL) && g_si_ndata == (use_aux ? (void *)aux : NULL), "C02 sign32: BIP-340 nonce function (named, or NULL = default) with aux_rand32 (or NULL) as its data");
     __CPROVER_assert(g_illegal == 0 && g_error == 0, "C02 sign32: no callback of its own");
     if (alias) REACH("sign alias"); else REACH("sign32");
 }
